@@ -5,12 +5,17 @@ import json
 import os
 
 root = os.path.dirname(os.path.abspath(__file__))
+summ = {}
+sp = os.path.join(root, "seeded", "summaries.json")
+if os.path.exists(sp):
+    summ = json.load(open(sp))
 rows = []
 for f in sorted(glob.glob(os.path.join(root, "seeded", "*", "meta.json"))):
     m = json.load(open(f))
     caught = [c["check"] for c in m.get("checks_run", []) if c.get("concrete_violations", 0) > 0]
     missed = [c["check"] for c in m.get("checks_run", []) if c.get("concrete_violations", 0) == 0]
-    rows.append((m["id"], m["breaks_property"], m.get("summary", ""), m.get("needs", ""),
+    sm = summ.get(m["id"], ["", ""])
+    rows.append((m["id"], m["breaks_property"], m.get("summary", sm[0]), m.get("needs", sm[1]),
                  f"{m.get('demo_exit_on_unchanged_tree')}/{m.get('demo_exit_with_change')}",
                  m.get("repo_suite_with_change", "").split(",")[1].strip() if "," in m.get("repo_suite_with_change", "") else m.get("repo_suite_with_change", ""),
                  ", ".join(caught) or "—", ", ".join(missed) or "—"))
